@@ -89,6 +89,9 @@ def signature(case, out):
         tail = "->".join(out["chain"][-4:-2]) if len(out["chain"]) >= 4 else "->".join(out["chain"])
         what = "no fault" if not f else "%s answered with %s" % (f[0].upper(), "a short count" if f[0].startswith("short") else "status " + ("EOF" if f[2] == 1 else "error"))
         return "hang: %s (%s) blocked in %s with every request answered, after %s" % (fam, opts(case), tail, what)
+    if not f and (case.get("declared") is not None or case.get("stat_lag")):
+        return ("%s (%s): the declared/stat'ed file size differs from what the source yields and the upload is not "
+                "complete (destination is %s)" % (case["op"], opts(case), "a prefix of the source" if out.get("dest_is_prefix") else "different"))
     if not f and case.get("source"):
         return ("putfo (%s): source whose read() returns short counts before its end is not copied completely "
                 "(destination is %s)" % (opts(case), "a prefix of the source" if out.get("dest_is_prefix") else "different"))
@@ -327,8 +330,51 @@ def run(ctx):
                         ctx.count("short_source_cells_" + pattern)
                         ctx.count("source_short_reads_returned", o.get("source_short_reads", 0))
                         judge(ctx, case, o)
+        # ---- declared file_size of putfo() / stat'ed size of put() differs from what the source yields ----
+        dsizes = [1, 40000, 100000, 70000 + ctx.seed % 977] if ctx.quick else [1, 3000, 32768, 32769, 65536, 100000, 200000, 327680, 1048576, 50000 + ctx.seed % 9973]
+        j = 0
+        for size in dsizes:
+            decl = [("zero", 0), ("exact", size), ("smaller_by_1", size - 1), ("smaller_by_chunk", size - 32768), ("half", size // 2),
+                    ("larger", size + 1000)]
+            for cls, d in decl:
+                if d < 0 or (cls != "exact" and d == size) or (cls != "zero" and d == 0):
+                    continue
+                for confirm in (True, False):
+                    for cb in (False, True):
+                        for source in (None, "random"):
+                            j += 1
+                            if not ctx.mine(j) or time.time() > end:
+                                continue
+                            case = dict(op="putfo", size=size, cseed=7000 + j + ctx.seed, confirm=confirm, callback=cb,
+                                        declared=d, source=source, fault=None)
+                            o = X.run_case(case, root)
+                            ctx.case(case, sample=dict(case, observed={x: o.get(x) for x in ("outcome", "exact", "callback_totals", "writes")})
+                                     if cls == "half" and size == 100000 and cb and len(ctx.samples) < 6 else None)
+                            ctx.count("declared_size_cells")
+                            ctx.count("declared_size_" + cls)
+                            judge(ctx, case, o)
+            for lag in (1, 32768, size // 2):
+                if not 0 < lag <= size:
+                    continue
+                for confirm in (True, False):
+                    for cb in (False, True):
+                        j += 1
+                        if not ctx.mine(j) or time.time() > end:
+                            continue
+                        case = dict(op="put", size=size, cseed=7000 + j + ctx.seed, confirm=confirm, callback=cb, stat_lag=lag, fault=None)
+                        o = X.run_case(case, root)
+                        if o.get("lagged_stat") is None:
+                            ctx.case(case, nontrivial=False)
+                            continue
+                        ctx.case(case)
+                        ctx.count("put_file_grown_after_stat_cells")
+                        judge(ctx, case, o)
     finally:
         shutil.rmtree(root, ignore_errors=True)
+    ctx.require("declared_size_cells", ctx.pick(120, 400))
+    for cls in ("zero", "exact", "smaller_by_1", "smaller_by_chunk", "half", "larger"):
+        ctx.require("declared_size_" + cls, ctx.pick(12, 40))
+    ctx.require("put_file_grown_after_stat_cells", ctx.pick(25, 80))
     ctx.require("shapes", ctx.pick(60, 200))
     ctx.require("faultfree_transfers_exact", ctx.pick(60, 200))
     ctx.require("faults_delivered", ctx.pick(1000, 10000))
